@@ -2,7 +2,7 @@
 C02 (decoders are total): checked-index models of the GSUB subtable readers of
 /repo/opentype/gtab/gsub.go as they stand in the working tree: `readGsub1_1` (79-95),
 `readGsub1_2` (140-166), `readGsub2_1` (222-261), `readGsub3_1` (355-402), `readGsub4_1`
-(497-578), `readGsub8_1` (717-768) and the dispatcher `readGsubSubtable` (30-50).
+(497-584), `readGsub8_1` (723-774) and the dispatcher `readGsubSubtable` (30-50).
 
 All readers take `(p *parser.Parser, subtablePos int64)` and are entered with the parser standing
 behind the format word, i.e. at `subtablePos + 2`.  The parser is a plain byte view (theorem
@@ -27,7 +27,7 @@ entry removed.
 
 Offsets (sequence / alternate-set / ligature-set / ligature / coverage offsets) may ALIAS one
 record: every visit is charged.  uint16 arithmetic: `componentCount-1` is `(n + 65535) % 65536`
-(a count of 0 becomes 65535); the dispatcher key `10*meta.LookupType+format` is taken modulo 65536.
+(a count of 0 is now rejected first; before that repair it became 65535: `read41Old`); the dispatcher key `10*meta.LookupType+format` is taken modulo 65536.
 
 Values are those of the value-level models of C08 (`SfntV.Otl.Gsub`, Model/OtlGsub.lean), to
 which Proofs/TotalGsubSub.lean bridges.  Cost: `steps` = parser reads + loop iterations,
@@ -182,31 +182,37 @@ def read31 (b : Bytes) (pos : Nat) : Outcome ((List (Nat × Nat) × List (List N
 
 /-! ## GSUB 4.1 -/
 
-/-- one ligature (gsub.go:532-554): ligature glyph, componentCount, `componentCount-1` (uint16:
-0 becomes 65535) component glyphs; `nsets = len(repl)`, `nligs = len(repl[i])` -/
-def ligRead (b : Bytes) (nsets nligs i j q : Nat) (c : Cost) : Outcome (Lig × Cost) := do
+/-- one ligature (gsub.go:532-560): ligature glyph, componentCount, `componentCount-1` component
+glyphs; `nsets = len(repl)`, `nligs = len(repl[i])`.  `fixed = true` is the code as it is now
+(gsub.go:544-549: `componentCount == 0` is rejected with an InvalidFontError BEFORE the `make`);
+`fixed = false` is the code before that repair, where the uint16 difference `componentCount-1`
+wrapped to 65535 for a count of 0.  With the guard `(cc + 65535) % 65536 = cc - 1`. -/
+def ligReadG (fixed : Bool) (b : Bytes) (nsets nligs i j q : Nat) (c : Cost) :
+    Outcome (Lig × Cost) := do
   let out ← readU16 "gsub.go:536#ReadUint16" b q
   let cc ← readU16 "gsub.go:540#ReadUint16" b (q + 2)
+  if fixed = true ∧ cc = 0 then .err "invalid" else
   let n := (cc + 65535) % 65536
-  let c ← mkSlice "gsub.go:544#make([]glyph.ID, componentCount-1)" n (c.tick 2)
-  let r ← wordsLoop "gsub.go:546#ReadUint16"
-    (fun k => chkIdx "gsub.go:550#componentGlyphIDs[k]" n k) b n (q + 4) 0 [] c
-  chkIdx "gsub.go:553#repl[i]" nsets i
-  chkIdx "gsub.go:553#repl[i][j]" nligs j
-  chkIdx "gsub.go:554#repl[i]" nsets i
-  chkIdx "gsub.go:554#repl[i][j]" nligs j
+  let c ← mkSlice "gsub.go:550#make([]glyph.ID, componentCount-1)" n (c.tick 2)
+  let r ← wordsLoop "gsub.go:552#ReadUint16"
+    (fun k => chkIdx "gsub.go:556#componentGlyphIDs[k]" n k) b n (q + 4) 0 [] c
+  chkIdx "gsub.go:559#repl[i]" nsets i
+  chkIdx "gsub.go:559#repl[i][j]" nligs j
+  chkIdx "gsub.go:560#repl[i]" nsets i
+  chkIdx "gsub.go:560#repl[i][j]" nligs j
   pure (⟨r.1, out⟩, r.2)
 
-/-- one ligature set (gsub.go:520-555): ligature offsets, `make`, the ligatures -/
-def ligSetRead (b : Bytes) (nsets i q : Nat) (c : Cost) : Outcome (List Lig × Cost) := do
+/-- one ligature set (gsub.go:520-561): ligature offsets, `make`, the ligatures -/
+def ligSetReadG (fixed : Bool) (b : Bytes) (nsets i q : Nat) (c : Cost) :
+    Outcome (List Lig × Cost) := do
   let offs ← readU16Slice b q c
   let c ← mkSlice "gsub.go:530#make([]Ligature, len(ligatureOffsets))" offs.1.length offs.2
   chkIdx "gsub.go:530#repl[i]" nsets i
-  rangeLoop (ligRead b nsets offs.1.length i) q offs.1 0 [] c
+  rangeLoop (ligReadG fixed b nsets offs.1.length i) q offs.1 0 [] c
 
-/-- `readGsub4_1` up to and including the size computation (gsub.go:497-564): everything that
+/-- `readGsub4_1` up to and including the size computation (gsub.go:497-570): everything that
 happens BEFORE the cap `total > 0xFFFF` is tested -/
-def read41Pre (b : Bytes) (pos : Nat) :
+def read41PreG (fixed : Bool) (b : Bytes) (pos : Nat) :
     Outcome ((List (Nat × Nat) × List (List Lig)) × Cost) := do
   let covOff ← readU16 "gsub.go:498#ReadUint16" b (pos + 2)
   let offs ← readU16Slice b (pos + 4) Cost.zero.tick
@@ -214,14 +220,31 @@ def read41Pre (b : Bytes) (pos : Nat) :
   let pr ← pruneStep "gsub.go:515#ligatureSetOffsets[:len(cov)]" cov.1 offs.1 (cadd offs.2 cov.2)
   let nsets := pr.1.2.length
   let c ← mkSlice "gsub.go:518#make([][]Ligature, len(ligatureSetOffsets))" nsets pr.2
-  let repl ← rangeLoop (ligSetRead b nsets) pos pr.1.2 0 [] c
-  -- gsub.go:558-564: the two loops that add up `total`
+  let repl ← rangeLoop (ligSetReadG fixed b nsets) pos pr.1.2 0 [] c
+  -- gsub.go:564-570: the two loops that add up `total`
   pure ((pr.1.1, repl.1), repl.2.tick (repl.1.length + (repl.1.map List.length).sum))
 
-/-- `readGsub4_1` (gsub.go:497-578): the cap comes AFTER all reads and allocations -/
-def read41 (b : Bytes) (pos : Nat) : Outcome ((List (Nat × Nat) × List (List Lig)) × Cost) := do
-  let r ← read41Pre b pos
+/-- `readGsub4_1` (gsub.go:497-584): the cap comes AFTER all reads and allocations -/
+def read41G (fixed : Bool) (b : Bytes) (pos : Nat) :
+    Outcome ((List (Nat × Nat) × List (List Lig)) × Cost) := do
+  let r ← read41PreG fixed b pos
   if lig41Total r.1.2 > 0xFFFF then .err "invalid" else pure (r.1, r.2.mem 1)
+
+/-- `readGsub4_1` before the cap, as it is in the working tree (zero component count rejected) -/
+def read41Pre (b : Bytes) (pos : Nat) :
+    Outcome ((List (Nat × Nat) × List (List Lig)) × Cost) := read41PreG true b pos
+
+/-- `readGsub4_1` as it is in the working tree -/
+def read41 (b : Bytes) (pos : Nat) : Outcome ((List (Nat × Nat) × List (List Lig)) × Cost) :=
+  read41G true b pos
+
+/-- `readGsub4_1` BEFORE the zero-count repair (kept only to state what the old code did) -/
+def read41PreOld (b : Bytes) (pos : Nat) :
+    Outcome ((List (Nat × Nat) × List (List Lig)) × Cost) := read41PreG false b pos
+
+/-- `readGsub4_1` BEFORE the zero-count repair -/
+def read41Old (b : Bytes) (pos : Nat) : Outcome ((List (Nat × Nat) × List (List Lig)) × Cost) :=
+  read41G false b pos
 
 /-! ## GSUB 8.1 -/
 
@@ -232,22 +255,22 @@ def covRead81 (site : String) (b : Bytes) (count : Nat) (i q : Nat) (c : Cost) :
   chkIdx site count i
   pure (r.1, cadd c r.2)
 
-/-- `readGsub8_1` (gsub.go:717-768) -/
+/-- `readGsub8_1` (gsub.go:723-774) -/
 def read81 (b : Bytes) (pos : Nat) : Outcome (Rev81 × Cost) := do
-  let covOff ← readU16 "gsub.go:718#ReadUint16" b (pos + 2)
+  let covOff ← readU16 "gsub.go:724#ReadUint16" b (pos + 2)
   let bo ← readU16Slice b (pos + 4) Cost.zero.tick
   let q1 := pos + 4 + 2 + 2 * bo.1.length
   let lo ← readU16Slice b q1 bo.2
   let q2 := q1 + 2 + 2 * lo.1.length
   let subs ← readGIDSlice b q2 lo.2
   let input ← coverageRead b (pos + covOff)
-  let c ← mkSlice "gsub.go:740#make([]coverage.Table, len(backtrackCoverageOffsets))" bo.1.length
+  let c ← mkSlice "gsub.go:746#make([]coverage.Table, len(backtrackCoverageOffsets))" bo.1.length
     (cadd subs.2 input.2)
-  let back ← rangeLoop (covRead81 "gsub.go:742#backtrack[i]" b bo.1.length) pos bo.1 0 [] c
-  let c ← mkSlice "gsub.go:747#make([]coverage.Table, len(lookaheadCoverageOffsets))" lo.1.length
+  let back ← rangeLoop (covRead81 "gsub.go:748#backtrack[i]" b bo.1.length) pos bo.1 0 [] c
+  let c ← mkSlice "gsub.go:753#make([]coverage.Table, len(lookaheadCoverageOffsets))" lo.1.length
     back.2
-  let look ← rangeLoop (covRead81 "gsub.go:749#lookahead[i]" b lo.1.length) pos lo.1 0 [] c
-  let pr ← pruneStep "gsub.go:758#substituteGlyphIDs[:len(input)]" input.1 subs.1 look.2
+  let look ← rangeLoop (covRead81 "gsub.go:755#lookahead[i]" b lo.1.length) pos lo.1 0 [] c
+  let pr ← pruneStep "gsub.go:764#substituteGlyphIDs[:len(input)]" input.1 subs.1 look.2
   pure (⟨pr.1.1, back.1, look.1, pr.1.2⟩, pr.2.mem 1)
 
 /-! ## the dispatcher -/
